@@ -13,6 +13,8 @@ import ShVerif.Gen.C09
     local <ptree>           -> the local ordering facts hold at every node
     specglobal <ptree>      -> the global statement (pos ≤ end, descendants within ancestors, children
                                in source order), executed directly
+    localtight / specglobaltight <ptree> -> the same with non-overlap of list elements (trees without
+                               here-documents)
     speclinecol <hex> o…    -> "line:col …" of these byte offsets, recomputed from the source bytes
 -/
 namespace ShVerif.Drv.C09
@@ -72,10 +74,10 @@ def pairsOf : List SExp → Option (List (Nat × Nat))
 
 mutual
   def ptreeOf : SExp → Option PTree
-    | .list (a :: b :: c :: .list toks :: kids) =>
-      match a.atomNat?, b.atomNat?, c.atomNat?, pairsOf toks, ptreesOf kids with
-      | some id, some p, some e, some tk, some ks => some (.node id p e tk ks)
-      | _, _, _, _, _ => none
+    | .list (a :: s :: b :: c :: .list toks :: kids) =>
+      match a.atomNat?, s.atomNat?, b.atomNat?, c.atomNat?, pairsOf toks, ptreesOf kids with
+      | some id, some sl, some p, some e, some tk, some ks => some (.node id sl p e tk ks)
+      | _, _, _, _, _, _ => none
     | _ => none
   def ptreesOf : List SExp → Option (List PTree)
     | [] => some []
@@ -122,6 +124,14 @@ def handle (args : List String) : String :=
   | "specglobal" :: toks =>
     match (SExp.parse toks).bind ptreeOf with
     | some t => toString (globalOk t)
+    | none => "bad-op"
+  | "localtight" :: toks =>
+    match (SExp.parse toks).bind ptreeOf with
+    | some t => toString (localOk t && localDisjoint t)
+    | none => "bad-op"
+  | "specglobaltight" :: toks =>
+    match (SExp.parse toks).bind ptreeOf with
+    | some t => toString (globalOk t && globalDisjoint t)
     | none => "bad-op"
   | "speclinecol" :: hex :: offs =>
     match ofHex hex, offs.mapM (·.toNat?) with
